@@ -46,13 +46,15 @@ func zzItoa(n int) string {
 // without changing the list; removing unused binds keeps the invariant.
 func VerifC07_AuthProxyPorts() {
 	f := &Frontend{}
-	start := 14410 + nd.Choice("rangestart", 2)
+	// ranges around the default one and across a digit boundary (port names are strings)
+	base := []int{14410, 9998, 98}[nd.Choice("rangebase", 3)]
+	start := base + nd.Choice("rangestart", 2)
 	size := nd.Choice("rangesize", nd.Param("MAXRANGE", 3)+1)
 	f.AuthProxy.RangeStart = start
 	f.AuthProxy.RangeEnd = start + size - 1
 	// arbitrary valid pre-state: any subset of 5 candidate ports, each bound to a distinct backend
 	nb := 0
-	for p := 14409; p <= 14413; p++ {
+	for p := base - 1; p <= base+3; p++ {
 		if nd.Bool("inuse") {
 			f.AuthProxy.BindList = append(f.AuthProxy.BindList, &AuthProxyBind{
 				AuthBackendName: "_auth_" + zzItoa(p), Backend: zzBackID(nb), LocalPort: p, SocketID: 10000 + p,
